@@ -31,6 +31,17 @@ cval __CPROVER_uninterpreted_cval_from_uval(uval u);
 #define cval_from_uval(u) __CPROVER_uninterpreted_cval_from_uval(u)
 unsigned gh_boxes_live;   /* ghost (modular counter): heap boxes created by `new T(v)` and not yet released by `delete` */
 static inline cval *cval_new(cval v) { cval *p = malloc(sizeof(cval)); __CPROVER_assume(p != NULL); *p = v; gh_boxes_live++; return p; }
+/* `*p` for a T* made from the record's void* result pointer.  The library's own guards (Q_ASSERT(hasResult())) are compiled out
+ * (QT_NO_DEBUG), so the model carries the check: reading the value while no result is stored is a named violation, and the
+ * read then yields an arbitrary value (cval_garbage, chosen by the harness) instead of undefined behaviour, so that the
+ * remaining obligations of the function are still decided.  A non-null pointer is returned as it is: a dangling one is still
+ * caught by CBMC's own dereference checks. */
+cval cval_garbage;
+static inline cval *cval_at(cval *p)
+{
+  __CPROVER_assert(p != NULL, "[pre.result_value_is_read_only_while_a_result_is_stored] the stored result is dereferenced only when one is present");
+  return p != NULL ? p : &cval_garbage;
+}
 static inline void cval_delete(cval *p) { if (p != NULL) gh_boxes_live--; free(p); }
 
 typedef struct QObject QObject;
